@@ -1,5 +1,6 @@
 import MsqProofs.Props.C03RL
 import MsqProofs.Props.C03R3
+import MsqProofs.Props.C03RL2
 /-!
 # Theorem coverage of a stream of texts (run with `lake env lean --run MsqProofs/Tools/FragCov.lean < lines`)
 
@@ -14,6 +15,9 @@ HYPOTHESES of the registered theorems hold of the parsed tree — they are decid
   Props/C03R3.lean) — then `C03.tstatement_any3` / `C03.tstatement_union3` / `C01.statement_round_trip_tokens_any3` apply.  `X`, `T` keep their
   meaning; the old `-` (outside `TR.FragAny`) is `U` + `-`.  A statement in `TR.FragAny` and outside `TR3.FragAny` would contradict the (unproved)
   inclusion: it is answered `M` (never seen).
+
+* `Y` text level by the WEAKER decidable payload condition only: `leafAnyB` fails, `C03.AnyText.leafAnyB2` holds (Props/C03RL2.lean: a back-quoted
+  column name need not be a plain name) — `C01.statement_round_trip_text_any_B2` applies.  `X` keeps its meaning (by `leafAnyB`); the old `T` is `T` + `Y`.
 
 So for an accepted input whose tree answers `X`, the round trip of C01 is a theorem (about the models), not a test.  The harness reports the fractions.
 This is a measurement tool, not part of any proof. -/
@@ -41,7 +45,9 @@ def judge (d : Gen.D) (s : Stmt) : String :=
   let x := t && LL2.Any.printableAny d s && C03.AnyText.leafAnyB d s &&
     (match PR.prStmt d s with | .ok str => dialectPre d str.toList == str.toList | .error _ => false)
   let u := TR3.FragAny d s
-  kindOf s ++ ":" ++ (if t && !u then "M" else if x then "X" else if t then "T" else if u then "U" else "-")
+  let y := t && LL2.Any.printableAny d s && C03.AnyText.leafAnyB2 d s &&
+    (match PR.prStmt d s with | .ok str => dialectPre d str.toList == str.toList | .error _ => false)
+  kindOf s ++ ":" ++ (if t && !u then "M" else if x then "X" else if y then "Y" else if t then "T" else if u then "U" else "-")
 
 def respond (line : String) : String :=
   match line.splitOn " " with
